@@ -106,3 +106,17 @@ package referenceserver
 //@               hAddH[atpre(hAddN[0]) + flatLen(resp.Headers, len(resp.Headers)) + t] == rwHeaderOf(r.respWriter) &&
 //@               hAddKey[atpre(hAddN[0]) + flatLen(resp.Headers, len(resp.Headers)) + t] == "Trailer" &&
 //@               hAddVal[atpre(hAddN[0]) + flatLen(resp.Headers, len(resp.Headers)) + t] == resp.Trailers[t].Name
+
+// ---- gRPC status trailers as the reference server renders them (C13) ----
+// grpc-status and grpc-message always, in this order, one value each; the message value is
+// the percent-encoding of the error's message and therefore passes the wire examiner's scan
+// (scanOK, see grpcutil); grpc-status-details-bin only for an error with details.
+//@ func grpcStatusTrailers
+//@   requires err != nil
+//@   ensures len(result) >= 2 && len(result) <= 3 && (forall i int :: 0 <= i && i < len(result) ==> result[i] != nil && len(result[i].Value) == 1)
+//@   ensures result[0].Name == "grpc-status" && result[1].Name == "grpc-message" && scanOK(result[1].Value[0])
+//@   ensures len(result) == 3 ==> result[2].Name == "grpc-status-details-bin" && len(ceDetails[err]) > 0
+//@   ensures len(ceDetails[err]) == 0 ==> len(result) == 2
+//@   loop 0: invariant len(trailers) == 2 && fresh(trailers) && trailers[0] != nil && trailers[1] != nil && fresh(trailers[0]) && fresh(trailers[1]) && len(trailers[0].Value) == 1 && len(trailers[1].Value) == 1
+//@           invariant trailers[0].Name == "grpc-status" && trailers[1].Name == "grpc-message" && fresh(trailers[1].Value) && scanOK(trailers[1].Value[0])
+//@           invariant statProto != nil && fresh(statProto) && fresh(statProto.Details) && len(statProto.Details) == len(ceDetails[err]) && len(ceDetails[err]) > 0
